@@ -37,3 +37,32 @@ impl PNode {
     pub fn name(&self) -> (r: &NameR) ensures *r == self.name, { unimplemented!() }
 }
 pub struct PTree { pub nodes: Vec<PNode> }
+
+// ---- wiring of the two comparison switches: ParentOptions -> Parent::new -> Parent ----
+pub struct TreeIdW { pub _opaque: u64 }
+pub struct SnapshotIdW { pub _opaque: u64 }
+// ParentOptions, reduced to the two switches (the remaining fields select the parent snapshots)
+pub struct ParentOptionsW { pub ignore_ctime: bool, pub ignore_inode: bool }
+pub struct VRepoW { pub _opaque: u64 }
+pub struct VDbeW { pub _opaque: u64 }
+pub struct VIndexW { pub _opaque: u64 }
+impl VRepoW {
+    #[verifier::external_body]
+    pub fn dbe(&self) -> &VDbeW { unimplemented!() }
+    #[verifier::external_body]
+    pub fn index(&self) -> &VIndexW { unimplemented!() }
+}
+pub struct ParentW {
+    pub tree_ids: Vec<TreeIdW>,
+    pub trees: Vec<(PTree, usize)>,
+    pub stack: Vec<Vec<(PTree, usize)>>,
+    pub ignore_ctime: bool,
+    pub ignore_inode: bool,
+}
+impl ParentW {
+    // Parent::new as seen by its caller: the unit parent_new_fields proves exactly this about the struct literal
+    #[verifier::external_body]
+    pub fn vnew(be: &VDbeW, index: &VIndexW, tree_id: Vec<TreeIdW>, ignore_ctime: bool, ignore_inode: bool) -> (r: ParentW)
+        ensures r.ignore_ctime == ignore_ctime, r.ignore_inode == ignore_inode,
+    { unimplemented!() }
+}
